@@ -403,3 +403,33 @@ def strip_observed(ev):
     """Scenario part of a replay event: everything the executor did not add."""
     obs = set(ev.get("_obs", []))
     return {k: v for k, v in ev.items() if k not in obs and k not in ("st", "pan", "neg", "_obs")}
+
+
+def limb_pattern_pairs(bits, rng, count):
+    """Pairs (a, b) whose limbs are related position by position by a pattern over {<, =, >} (all 3^L patterns for
+    L <= 3, sampled above): comparisons that scan limbs in the wrong order, lose the 'equal so far' state or drop a
+    borrow at an all-ones limb are only visible on such operands."""
+    import itertools
+    L = nlimbs(bits)
+    if L < 2:
+        return []
+    mx = (1 << bits) - 1
+    pats = list(itertools.product("<=>", repeat=L)) if L <= 3 else [tuple(rng.choice("<=>") for _ in range(L)) for _ in range(count)]
+    out = []
+    for pat in pats:
+        for _ in range(max(1, count // max(len(pats), 1))):
+            a = b = 0
+            for i, rel in enumerate(pat):
+                x = rng.choice([0, 1, 2**63, 2**64 - 2, 2**64 - 1, rng.getrandbits(64)])
+                if rel == "=":
+                    y = x
+                elif rel == "<":
+                    x = min(x, 2**64 - 2)
+                    y = rng.choice([x + 1, 2**64 - 1])
+                else:
+                    x = max(x, 1)
+                    y = rng.choice([x - 1, 0])
+                a |= x << (64 * i)
+                b |= y << (64 * i)
+            out.append((a & mx, b & mx))
+    return out
